@@ -1498,3 +1498,224 @@ def shrink(G, ops, still_fails, max_rounds=6):
         if not changed:
             break
     return ops
+
+
+# ----------------------------------------------------------------------------- n-d values (State/StateNdExec.v)
+#
+# Values with a trailing shape: nested lists of exact atoms.  Coq: `tens` (T0 atom | TL rows), `nval` (NP | NW value weight | NBad).
+
+
+def is_off(a):
+    return isinstance(a, list) and len(a) == 2 and a[0] == "off"
+
+
+def nest_json(x):
+    """nested python list of numbers (tensor.tolist()) -> nested list of exact atoms"""
+    if isinstance(x, list):
+        return [nest_json(y) for y in x]
+    return atom_json(x)
+
+
+def nest_py(v):
+    if isinstance(v, list) and not is_off(v):
+        return [nest_py(y) for y in v]
+    return atom_py(v)
+
+
+def tens_coq(v):
+    if isinstance(v, list) and not is_off(v):
+        return "(TL [" + "; ".join(tens_coq(y) for y in v) + "])"
+    return f"(T0 {atom_coq(v)})"
+
+
+def nval_json(t):
+    """tensor -> {"t": nested}; WeightedTensor -> {"v": nested, "w": nested | None, "wdt": dtype of the weight}; None -> None"""
+    if t is None:
+        return None
+    if hasattr(t, "weighted_value"):
+        w = t.weight
+        return {"v": nest_json(t.value.tolist()), "w": None if w is None else nest_json(w.tolist()),
+                "wdt": None if w is None else str(w.dtype).replace("torch.", "")}
+    return {"t": nest_json(t.tolist())}
+
+
+def nval_coq(j):
+    if not isinstance(j, dict):
+        return "NBad"
+    if "t" in j:
+        return f"(NP {tens_coq(j['t'])})"
+    if "v" in j:
+        return f"(NW {tens_coq(j['v'])} {'None' if j.get('w') is None else '(Some ' + tens_coq(j['w']) + ')'})"
+    return "NBad"
+
+
+def nval_tensor(j, dtype="int64"):
+    """the real value described by {"t": ..} / {"v": .., "w": .., "wdt": ..}"""
+    import torch
+    from leaspy.utils.weighted_tensor import WeightedTensor
+    dt = {"int64": torch.int64, "float64": torch.float64, "float32": torch.float32, "bool": torch.bool}
+    if "t" in j:
+        return torch.tensor(nest_py(j["t"]), dtype=dt[dtype])
+    v = torch.tensor(nest_py(j["v"]), dtype=dt[dtype])
+    if j.get("w") is None:
+        return WeightedTensor(v)
+    return WeightedTensor(v, torch.tensor(nest_py(j["w"]), dtype=dt[j.get("wdt") or "bool"]))
+
+
+def nest_shape(v):
+    s = []
+    while isinstance(v, list) and not is_off(v):
+        s.append(len(v))
+        v = v[0] if v else None
+    return s
+
+
+def nmask_coq(mask, rb=True):
+    return f"({'true' if rb else 'false'}, [{'; '.join('true' if b else 'false' for b in mask)}])"
+
+
+def _rand_nest(rng, shape, lo, hi):
+    if not shape:
+        return rng.randint(lo, hi)
+    return [_rand_nest(rng, shape[1:], lo, hi) for _ in range(shape[0])]
+
+
+def nest_kind(j):
+    return "plain" if "t" in j else ("weighted:none" if j.get("w") is None else "weighted")
+
+
+def select_contract(old, cur, mask, rb):
+    """is the call inside the documented contract of `revert(subset)` — computed from the shapes alone: same shapes, at least one
+    axis, exactly one mask entry per index of the axis the mask is aligned on, the same kind of weight on both sides"""
+    so, sc = nest_shape(old.get("t", old.get("v"))), nest_shape(cur.get("t", cur.get("v")))
+    if so != sc or not so or nest_kind(old) != nest_kind(cur):
+        return False
+    return so[0 if rb else -1] == len(mask)
+
+
+def select_reference(old, cur, mask, rb):
+    """the documented result inside the contract, computed on nested lists: right-broadcasting -> row i from the forked side where
+    mask[i]; right_broadcasting=False -> entry i of every innermost vector"""
+    def sel(o, c, depth):
+        if depth == 0:
+            return [o[i] if mask[i] else c[i] for i in range(len(mask))]
+        return [sel(a, b, depth - 1) for a, b in zip(o, c)]
+    out = {}
+    for key in ("t", "v", "w"):
+        if old.get(key) is not None:
+            d = 0 if rb else len(nest_shape(old[key])) - 1
+            out[key] = sel(old[key], cur[key], d)
+        elif key in old:
+            out[key] = None
+    return out
+
+
+def select_cases(rng):
+    """Directed `revert(subset, right_broadcasting=rb)` calls on a value held on both sides: shapes (), (3,), (3,1), (3,2), (2,3,2), (1,2),
+    (2,2) x masks of length 1, 2, 3 (ALL masks) x both alignments x kinds of value (plain; boolean weights; NON-boolean weights;
+    weight=None; weighted on one side only, both ways; weight=None against weights) + the two sides with different shapes."""
+    import itertools
+    shapes = [[], [3], [3, 1], [3, 2], [2, 3, 2], [1, 2], [2, 2]]
+    kinds = [("plain", "plain"), ("wbool", "wbool"), ("wint", "wint"), ("wnone", "wnone"), ("plain", "wint"), ("wbool", "plain"),
+             ("wnone", "wint"), ("wbool", "wnone")]
+
+    def mk(kind, shape):
+        v = _rand_nest(rng, shape, -9, 9)
+        if kind == "plain":
+            return {"t": v}
+        if kind == "wnone":
+            return {"v": v, "w": None, "wdt": None}
+        if kind == "wbool":
+            return {"v": v, "w": _rand_nest(rng, shape, 0, 1), "wdt": "bool"}
+        return {"v": v, "w": _rand_nest(rng, shape, 0, 4), "wdt": "int64"}
+    cases = []
+    for shape in shapes:
+        for ko, kc in kinds:
+            old, cur = mk(ko, shape), mk(kc, shape)
+            for k in (1, 2, 3):
+                for mask in itertools.product([True, False], repeat=k):
+                    for rb in (True, False):
+                        cases.append(dict(old=old, cur=cur, mask=list(mask), rb=rb))
+    for so, sc in (([2, 2], [2]), ([3], [3, 1]), ([2, 3], [3, 2]), ([], [1]), ([2, 2], [2, 2, 1])):
+        for ko, kc in (("plain", "plain"), ("wbool", "wbool")):
+            for rb in (True, False):
+                cases.append(dict(old=mk(ko, so), cur=mk(kc, sc), mask=[True, False], rb=rb))
+    return cases
+
+
+SELECT_DAG = None
+
+
+def exec_select(case):
+    """run one case on a real State: x := old (forked), x := cur, revert(mask, right_broadcasting=rb); returns
+    (observed value of x | None when the call raised, exception class, is _last_fork None afterwards)"""
+    import torch
+    from leaspy.variables.dag import VariablesDAG
+    from leaspy.variables.specs import DataVariable, LinkedVariable
+    from leaspy.variables.state import State, StateForkType
+    global SELECT_DAG
+    if SELECT_DAG is None:
+        SELECT_DAG = VariablesDAG.from_dict({"x": DataVariable(), "y": LinkedVariable(lambda *, x: x)})
+    st = State(SELECT_DAG, auto_fork_type=StateForkType.REF)
+    st["x"] = nval_tensor(case["old"])
+    st["x"] = nval_tensor(case["cur"])
+    try:
+        st.revert(torch.tensor(case["mask"], dtype=torch.bool), right_broadcasting=bool(case["rb"]))
+    except Exception as e:  # noqa: the refusals are part of the model (AssertionError of revert, RuntimeError of torch)
+        return None, type(e).__name__, st._last_fork is None
+    return nval_json(st._values["x"]), None, st._last_fork is None
+
+
+SELECT_HEADER = ("From Coq Require Import ZArith List Bool.\nFrom Leaspy Require Import State.StateModel State.StateExec State.StateWExec "
+                 "State.StateNdExec.\nImport ListNotations.\nOpen Scope Z_scope.\nOpen Scope nat_scope.\n")
+SELECT_CASE_TYPE = "nmask * nval * nval * option nval * bool"
+SELECT_SIG = "partial-revert:nd-selection-differs-from-documented-rows"
+
+
+def select_case_coq(case, observed):
+    obs = "None" if observed is None else f"(Some {nval_coq(observed)})"
+    return (f"({nmask_coq(case['mask'], case['rb'])}, {nval_coq(case['old'])}, {nval_coq(case['cur'])}, {obs}, "
+            f"{'true' if select_contract(case['old'], case['cur'], case['mask'], case['rb']) else 'false'})")
+
+
+def directed_select(run):
+    """the tie of `nselect_torch` / `nselect` (State/StateNdExec.v) with `State.revert` + `_select`, and the implementation-side oracle
+    for the calls inside the contract (rows / last-axis entries computed on nested lists)"""
+    cases = select_cases(run.rng("directed-select"))
+    coq, stats = [], {}
+    for c in cases:
+        observed, exc, fork_none = exec_select(c)
+        inside = select_contract(c["old"], c["cur"], c["mask"], c["rb"])
+        shape = nest_shape(c["old"].get("t", c["old"].get("v")))
+        key = (f"{'inside' if inside else 'outside'} the contract; {'refused: ' + exc if observed is None else 'accepted'}")
+        stats[key] = stats.get(key, 0) + 1
+        run.count("nd_select", f"shape {tuple(shape)}, right_broadcasting={c['rb']}: {key}")
+        run.case(("nd-select", json_key(c)), nontrivial=len(shape) >= 2 or nest_kind(c["old"]) != "plain")
+        coq.append(select_case_coq(c, observed))
+        if inside:
+            ref = select_reference(c["old"], c["cur"], c["mask"], c["rb"])
+            got = None if observed is None else {k: observed.get(k) for k in ref}
+            if got != ref or not fork_none:
+                run.fail(SELECT_SIG, "revert(subset, right_broadcasting) on a value with a trailing shape held on both sides: the value left in the "
+                         "state is not 'the forked row where the subset says revert, the current row elsewhere' (right-broadcasting) / 'entry i of every "
+                         "innermost vector from the forked side where subset[i]' (right_broadcasting=False), for the value or for the WEIGHT of a "
+                         "WeightedTensor; or the call was refused / left _last_fork in place", dict(select=c),
+                         expected=ref, observed=dict(value=observed, raised=exc, last_fork_cleared=fork_none))
+    bad = run.vm_bad_indices("nd_select", SELECT_HEADER, SELECT_CASE_TYPE, coq, "check_nselect", shard=400)
+    for i in (bad or [])[:3]:
+        c = cases[i]
+        observed, exc, _ = exec_select(c)
+        run.fail("model-vs-code:nselect", "State.revert(subset, right_broadcasting) and the Coq model of `_select` on n-d values (nselect_torch: "
+                 "broadcasting and refusals included; nselect: its restriction to the contract) disagree: the theorems on n-d values no longer "
+                 "speak about this code", dict(select=c), expected="nselect_torch / nselect (coq/tmp/cases_*_nd_select_*.v)",
+                 observed=dict(value=observed, raised=exc), kind="broken-correspondence")
+    run.extra["nd_select_cases"] = dict(n=len(cases), by_outcome=stats)
+    if not any(k.startswith("inside") and "accepted" in k for k in stats) or not any("refused: AssertionError" in k for k in stats) \
+            or not any("refused: RuntimeError" in k for k in stats) or not any(k.startswith("outside") and "accepted" in k for k in stats):
+        run.broken("generator:nd-select-shape", f"the directed revert calls no longer reach every outcome class: {stats}", kind="broken-correspondence")
+    return bad
+
+
+def json_key(o):
+    import json
+    return json.dumps(o, sort_keys=True, default=str)
